@@ -121,6 +121,13 @@ theorem owner_unique (nTasks : Nat) (nBatches : Int) (start : Nat) (hn : 1 ≤ n
   | [x] => rw [hl] at hpf hqf; simp at hpf hqf; rw [hpf, hqf]
   | x :: y :: r => rw [hl] at hle; simp at hle
 
+/-- the batch sizes add up to the number of tasks: nothing is lost or invented by the partition -/
+theorem batch_sizes_sum (nTasks : Nat) (nBatches : Int) (start : Nat) (hn : 1 ≤ nTasks) :
+    ((batchTasks nTasks nBatches start).map (fun p => p.2 - p.1)).sum = nTasks := by
+  have h := congrArg List.length (batches_cover nTasks nBatches start hn)
+  rw [List.length_flatMap] at h
+  simpa using h
+
 /-! ### `run_worker`: what is handed to `batch_tasks` -/
 
 /-- without an explicit `n_batches` the pool size is used, and never less than one batch -/
